@@ -27,7 +27,8 @@ LEVEL_NOTE = ("battery pool stubbed at _data_pipeline.new_battery_pool (bounds c
 RULE = ("random histories of 3-40 events over 1-2 component groups, 1-3 regular and 1-2 operating-point actors with "
         "distinct priorities; plus the two documented operating-point tables as fixed cases. distinct = canonical "
         "history JSON; non-trivial = >=1 request observed after both resolvers hold a target")
-REQUIRED_BUCKETS = ["bounds-only-step-with-request", "only-one-target-changed", "both-targets-nonzero",
+REQUIRED_BUCKETS = ["manager-created-by-the-power-wrapper", "proposals-issued-in-one-loop-iteration", "two-actors-with-the-same-priority", "manager-of:pv", "manager-of:ev",
+                    "bounds-only-step-with-request", "only-one-target-changed", "both-targets-nonzero",
                     "expiry", "partial-failure-resend", "late-partial-failure-resend", "bounds-None", "doc-table", "request-on-bound"]
 REQUIRED_COUNTERS = ["requests_checked", "reported_targets_compared", "reports_checked", "expired_kind_checks"]
 ASSUMPTIONS = ["stubbed battery pool; PowerDistributor replaced by the harness reading the requests channel"]
@@ -67,6 +68,10 @@ def gen(rng: Any, tier: str, i: int) -> Any:
         actors.append({"src": f"r{j}", "prio": prios[j], "op": False})
     for j in range(n_op):
         actors.append({"src": f"o{j}", "prio": prios[3 + j], "op": True})
+    if rng.random() < 0.3:
+        # a second regular actor with the same priority as the first (ties are broken by source id); it subscribes
+        # to the reports on its own
+        actors.append({"src": "r0b", "prio": prios[0], "op": False})
     events: list[dict[str, Any]] = []
 
     def bounds_ev(g: int) -> dict[str, Any]:
@@ -111,7 +116,15 @@ def gen(rng: Any, tier: str, i: int) -> Any:
                            "back": rng.choice([0, 0, 1, 2, 3])})
         else:
             events.append({"k": "advance", "dt": rng.choice([0.5, 5.0, 30.0, 59.0, 61.5, 130.0])})
-    return {"n_groups": ng, "events": events}
+    if rng.random() < 0.4:
+        # proposals of several actors issued in one go (same event-loop iteration, e.g. actors woken by the same tick)
+        for k in range(len(events) - 1):
+            if events[k]["k"] == "prop" and events[k + 1]["k"] == "prop" and rng.random() < 0.6:
+                events[k]["burst"] = True
+    # the manager of batteries, of EV chargers or of solar inverters (each is wired to its own kind of pool); created
+    # directly or the way the SDK does it (microgrid/_power_wrapper.py)
+    return {"n_groups": ng, "events": events, "category": rng.choice(["battery", "battery", "ev", "pv"]),
+            "via_wrapper": rng.random() < 0.4}
 
 
 async def _drive(case: dict[str, Any], out: dict[str, Any]) -> None:
@@ -141,8 +154,21 @@ async def _drive(case: dict[str, Any], out: dict[str, Any]) -> None:
         def __init__(self, cid: frozenset[int]):
             self._system_power_bounds = _SPB(cid)
 
-    saved = _data_pipeline.new_battery_pool
-    _data_pipeline.new_battery_pool = lambda **kw: FakePool(frozenset(kw["component_ids"]))
+    # a pool requested without component ids stands for all components of the site: its bounds are another stream
+    ALL = frozenset({-1})
+    bounds_ch[ALL] = Broadcast[SystemBounds](name="b-all", resend_latest=True)
+    await bounds_ch[ALL].new_sender().send(pm.mk_sysbounds([-1e6, 1e6], [0.0, 0.0]))
+    category = case.get("category", "battery")
+    attr = {"battery": "new_battery_pool", "ev": "new_ev_charger_pool", "pv": "new_pv_pool"}[category]
+    saved = getattr(_data_pipeline, attr)
+    pool_requests = out.setdefault("pool_requests", [])
+
+    def _new_pool(**kw: Any) -> Any:
+        cid = kw.get("component_ids")
+        pool_requests.append(None if cid is None else sorted(cid))
+        return FakePool(ALL if cid is None else frozenset(cid))
+
+    setattr(_data_pipeline, attr, _new_pool)
     try:
         prop_ch = Broadcast[Proposal](name="p")
         sub_ch = Broadcast[ReportRequest](name="s")
@@ -150,26 +176,62 @@ async def _drive(case: dict[str, Any], out: dict[str, Any]) -> None:
         res_ch = Broadcast[_power_distributing.Result](name="res")
         reg = ChannelRegistry(name="reg")
         req_rx = req_ch.new_receiver(limit=1000)
-        actor = PowerManagingActor(prop_ch.new_receiver(limit=1000), sub_ch.new_receiver(limit=1000),
-                                   req_ch.new_sender(), res_ch.new_receiver(limit=1000), reg,
-                                   component_category=ComponentCategory.BATTERY)
-        actor.start()
-        ptx, stx, rtx = prop_ch.new_sender(), sub_ch.new_sender(), res_ch.new_sender()
+        from frequenz.client.microgrid import InverterType
+
+        ckw: dict[str, Any] = {"battery": {"component_category": ComponentCategory.BATTERY},
+                               "ev": {"component_category": ComponentCategory.EV_CHARGER},
+                               "pv": {"component_category": ComponentCategory.INVERTER,
+                                      "component_type": InverterType.SOLAR}}[category]
+        if case.get("via_wrapper") and category in ("battery", "pv"):
+            from datetime import timedelta as _td
+
+            from frequenz.sdk.microgrid._power_wrapper import PowerWrapper
+
+            from .. import fakes
+
+            # (the wrapper only asks the graph whether components of the category exist; pools are stubbed)
+            comps, conns = (fakes.battery_topology([([21, 22], [101])]) if category == "battery"
+                            else fakes.pv_topology([31, 32]))
+            fakes.install_connection_manager(comps, conns)
+            wrapper = PowerWrapper(reg, api_power_request_timeout=_td(seconds=5), **ckw)
+            req_rx = wrapper._power_distribution_requests_channel.new_receiver(limit=1000)  # noqa: SLF001
+            wrapper._start_power_managing_actor()  # noqa: SLF001
+            actor = wrapper._power_managing_actor  # noqa: SLF001
+            ptx, stx = wrapper.proposal_channel.new_sender(), wrapper.bounds_subscription_channel.new_sender()
+            rtx = wrapper._power_distribution_results_channel.new_sender()  # noqa: SLF001
+            out["via_wrapper"] = True
+        else:
+            actor = PowerManagingActor(prop_ch.new_receiver(limit=1000), sub_ch.new_receiver(limit=1000),
+                                       req_ch.new_sender(), res_ch.new_receiver(limit=1000), reg, **ckw)
+            actor.start()
+            ptx, stx, rtx = prop_ch.new_sender(), sub_ch.new_sender(), res_ch.new_sender()
+        # no-loss monitor at the algorithm boundary: every proposal sent reaches the resolver of its kind once
+        sent_props: dict[int, Any] = {}
+        seen_props: dict[int, int] = {}
+        for grp_name in ("_set_power_group", "_set_op_power_group"):
+            alg = getattr(actor, grp_name)
+
+            def _wrapped(component_ids: Any, proposal: Any, *a: Any, _orig: Any = alg.calculate_target_power, **k: Any) -> Any:
+                if proposal is not None:
+                    seen_props[id(proposal)] = seen_props.get(id(proposal), 0) + 1
+                return _orig(component_ids, proposal, *a, **k)
+
+            alg.calculate_target_power = _wrapped
         btx = {cid: ch.new_sender() for cid, ch in bounds_ch.items()}
         await asyncio.sleep(0.001)
         # subscribe every (group, actor) so that reports flow
-        report_rx: dict[tuple[int, int], Any] = {}
+        report_rx: dict[tuple[int, int, str], Any] = {}
         actors = {}
         for ev in case["events"]:
             if ev["k"] == "prop":
-                actors[(ev["g"], ev["prio"])] = ev["op"]
+                actors[(ev["g"], ev["prio"], ev["src"])] = ev["op"]
         sub_order = sorted(actors.items())
         import random as _random
 
         _random.Random(len(case["events"]) * 7919 + len(actors)).shuffle(sub_order)  # any group may subscribe last
-        for (g, prio), op in sub_order:
-            rr = ReportRequest(source_id=f"s{prio}", component_ids=GROUPS[g], priority=prio, set_operating_point=op)
-            report_rx[(g, prio)] = reg.get_or_create(_Report, rr.get_channel_name()).new_receiver(limit=1000)
+        for (g, prio, src), op in sub_order:
+            rr = ReportRequest(source_id=src, component_ids=GROUPS[g], priority=prio, set_operating_point=op)
+            report_rx[(g, prio, src)] = reg.get_or_create(_Report, rr.get_channel_name()).new_receiver(limit=1000)
             await stx.send(rr)
         await asyncio.sleep(0.001)
 
@@ -183,7 +245,12 @@ async def _drive(case: dict[str, Any], out: dict[str, Any]) -> None:
                 latest_bounds[ev["g"]] = ev
                 await btx[GROUPS[ev["g"]]].send(sb)
             elif ev["k"] == "prop":
-                await ptx.send(pm.mk_proposal(dict(ev, t=loop.time()), cid=GROUPS[ev["g"]], op=ev["op"]))
+                pr = pm.mk_proposal(dict(ev, t=loop.time()), cid=GROUPS[ev["g"]], op=ev["op"])
+                sent_props[id(pr)] = (idx, pr)  # (kept alive: identity is the proposal's id)
+                await ptx.send(pr)
+                if ev.get("burst"):
+                    out.setdefault("burst_T", {})[idx] = loop.time()
+                    continue  # the next proposal follows in the same loop iteration
             elif ev["k"] == "result":
                 req = last_request.get(ev["g"])
                 if req is None:
@@ -217,14 +284,14 @@ async def _drive(case: dict[str, Any], out: dict[str, Any]) -> None:
                     break
                 reqs.append(r)
             reports: dict[str, Any] = {}
-            for (g, prio), rx in report_rx.items():
+            for (g, prio, src), rx in report_rx.items():
                 while rx._q:  # noqa: SLF001
                     rep = rx.consume()
                     b = rep.bounds
-                    reports[f"{g}/{prio}"] = {
+                    reports[f"{g}/{prio}/{src}"] = {
                         "target": None if rep.target_power is None else rep.target_power.as_watts(),
                         "bounds": None if b is None else [b.lower.as_watts(), b.upper.as_watts()],
-                        "op": actors[(g, prio)]}
+                        "op": actors[(g, prio, src)]}
             state = {}
             for g in range(ng):
                 a = actor._set_power_group.get_target_power(GROUPS[g])  # noqa: SLF001
@@ -238,9 +305,12 @@ async def _drive(case: dict[str, Any], out: dict[str, Any]) -> None:
                           "requests": [{"g": GROUPS.index(frozenset(r.component_ids)), "power": r.power.as_watts()}
                                        for r in reqs],
                           "bounds": {g: latest_bounds.get(g) for g in range(ng)}})
+        out["proposals_sent"] = len(sent_props)
+        out["proposals_lost"] = [i for k, (i, _p) in sent_props.items() if seen_props.get(k, 0) == 0]
+        out["proposals_repeated"] = [i for k, (i, _p) in sent_props.items() if seen_props.get(k, 0) > 1]
         await actor.stop()
     finally:
-        _data_pipeline.new_battery_pool = saved
+        setattr(_data_pipeline, attr, saved)
 
 
 def check(case: dict[str, Any], rec: Any) -> None:
@@ -250,13 +320,38 @@ def check(case: dict[str, Any], rec: Any) -> None:
     if mon.loop_exceptions:
         rec.count("loop_exceptions", len(mon.loop_exceptions))
     prev_state: dict[int, Any] = {}
-    last_reported: dict[tuple[int, bool], float | None] = {}
-    subscribed_kinds = {(e["g"], e["op"]) for e in case["events"] if e["k"] == "prop"}
+    last_reported: dict[tuple[int, bool, str], float | None] = {}
+    subscribers: dict[tuple[int, bool], set[str]] = {}
+    for e in case["events"]:
+        if e["k"] == "prop":
+            subscribers.setdefault((e["g"], e["op"]), set()).add(e["src"])
+    rec.bucket("manager-of:" + case.get("category", "battery"))
+    if any(len(v) > len({x for x in v if not x.endswith("b")}) for v in subscribers.values()):
+        rec.bucket("two-actors-with-the-same-priority")
+    for cid in out.get("pool_requests", []):
+        if cid is None:
+            rec.violation("bounds-tracked-for-all-components-instead-of-the-group", {"pool_requests": out["pool_requests"]})
+            return
     nontrivial = False
     n_req = 0
     last_prop_T: dict[tuple[int, bool], float] = {}
+    rec.count("proposals_sent", out.get("proposals_sent", 0))
+    if out.get("via_wrapper"):
+        rec.bucket("manager-created-by-the-power-wrapper")
+    if out.get("burst_T"):
+        rec.bucket("proposals-issued-in-one-loop-iteration")
+    if out.get("proposals_lost") or out.get("proposals_repeated"):
+        rec.violation("proposal-did-not-reach-the-algorithm-exactly-once",
+                      {"lost_event_indices": out.get("proposals_lost"), "repeated": out.get("proposals_repeated"),
+                       "sent": out.get("proposals_sent"), "via_wrapper": bool(out.get("via_wrapper")),
+                       "events": case["events"][:40]})
+        return
+    burst_T = sorted(out.get("burst_T", {}).items())
     for st in out["steps"]:
         ev = st["ev"]
+        while burst_T and burst_T[0][0] < st["i"]:  # proposals sent in the same go, before this step's own event
+            idx, t = burst_T.pop(0)
+            last_prop_T[(case["events"][idx]["g"], case["events"][idx]["op"])] = t
         if ev["k"] == "prop":
             # expiry, judged independently of the resolvers' own state: when this proposal makes the manager re-resolve
             # the group, an actor kind whose every proposal is older than the maximum age (60 s, + the 1 s clean-up
@@ -273,7 +368,7 @@ def check(case: dict[str, Any], rec: Any) -> None:
             last_prop_T[(ev["g"], ev["op"])] = st["T"]
         for key, rep in st["reports"].items():
             g = int(key.split("/")[0])
-            last_reported[(g, rep["op"])] = rep["target"]
+            last_reported[(g, rep["op"], key.split("/")[2])] = rep["target"]
             rec.count("reports_checked")
             # a report's target is the resolver's current target (hooked state)
             cur = st["state"][g]["op" if rep["op"] else "reg"]
@@ -293,8 +388,8 @@ def check(case: dict[str, Any], rec: Any) -> None:
             rec.count("requests_checked", len(powers))
             s = st["state"][g]
             reg, op = s["reg"] or 0.0, s["op"] or 0.0
-            rr = last_reported.get((g, False))
-            ro = last_reported.get((g, True))
+            rr = {a: last_reported.get((g, False, a)) for a in sorted(subscribers.get((g, False), ()))}
+            ro = {a: last_reported.get((g, True, a)) for a in sorted(subscribers.get((g, True), ()))}
             p_old = prev_state.get(g, {"reg": None, "op": None})
             changed = [k for k in ("reg", "op") if p_old[k] != s[k]]
             w = {"step": st["i"], "event": ev, "request_powers": powers, "resolver_targets": s,
@@ -317,12 +412,15 @@ def check(case: dict[str, Any], rec: Any) -> None:
                 rec.violation("request-differs-from-sum-of-targets", {**w, "expected_sum": reg + op})
             else:
                 # ... and that is what the group's (subscribed) actors have been told last
-                for kind_op, told, cur in ((False, rr, s["reg"]), (True, ro, s["op"])):
-                    if (g, kind_op) in subscribed_kinds and cur is not None:
+                for kind_op, told_by_actor, cur in ((False, rr, s["reg"]), (True, ro, s["op"])):
+                    for a, told in told_by_actor.items():  # every subscribed actor of that kind
+                        if cur is None:
+                            continue
                         rec.count("reported_targets_compared")
                         if told is None or not abs(told - cur) <= 1e-6:
                             rec.violation("request-sent-but-the-group's-actors-were-not-told-the-new-target",
-                                          {**w, "operating_point_actors": kind_op, "last_reported": told, "current": cur})
+                                          {**w, "operating_point_actors": kind_op, "actor": a, "last_reported": told,
+                                           "current": cur})
             b = st["bounds"][g]
             for pw in powers:
                 if b is None or b["sys"] is None:
@@ -343,7 +441,7 @@ def check(case: dict[str, Any], rec: Any) -> None:
                                                                  "expected": case["expect_last_request"]})
         final = out["steps"][-1]["reports"]
         for prio, exp in case["expect_bounds"].items():
-            got_b = final.get(f"0/{prio}", {}).get("bounds")
+            got_b = next((v for k, v in final.items() if k.startswith(f"0/{prio}/")), {}).get("bounds")
             if got_b != exp:
                 rec.violation("documented-table-available-bounds", {"doc": case["doc"], "priority": prio,
                                                                     "reported": got_b, "expected": exp})
